@@ -30,6 +30,7 @@ RELABEL = {
     'position_closure': {'*': ['C09', 'C08']}, 'string_override': {'*': ['C02']}, 'optional_nested': {'C02': ['C02'], 'C10': ['C10'], '*': ['C01']},
     'include_fieldless_check': {'*': ['C13']}, 'include_chain': {'*': ['C13']},
     'leftrec_memo_inner': {'C06': ['C06'], 'C10': ['C10'], '*': ['C07', 'C05']},
+    'nest_skip_mix': {'*': ['C08']},
     'enum_field': {'*': ['C02']}, 'boxed': {'*': ['C02']}, 'box_merge': {'*': ['C02']}, 'override_simple': {'*': ['C02']}, 'override_enum': {'*': ['C02']},
 }
 # driver-level verdicts (reject / compile / same_as) and compile errors are attributed to:
